@@ -155,3 +155,17 @@ Theorem C02_mol_trimer_is_source :
 Proof. exact mol_trimer_is_source. Qed.
 Print Assumptions C02_mol_trimer_is_source.
 
+
+Theorem C02_poly_area_is_source :
+  forall (NN : Num) (angle_term : carrier NN) (l : list (seg NN)), poly_area NN angle_term l =
+    fold_left (fun (acc : carrier NN) (p : seg NN) => (acc + gen_poly_term NN angle_term p)%num)
+    l n0.
+Proof. exact poly_area_is_source. Qed.
+Print Assumptions C02_poly_area_is_source.
+
+Theorem C02_angle_term_is_source :
+  forall (NN : Num) (fsin : carrier NN -> carrier NN) (pi_ : carrier NN) (l : list (seg NN)),
+    gen_angle_term NN fsin pi_ l = fsin (n2 * pi_ / nofZ (Z.of_nat (length l)))%num.
+Proof. exact angle_term_is_source. Qed.
+Print Assumptions C02_angle_term_is_source.
+
